@@ -495,8 +495,7 @@ def self_attr_aliases(tree: ast.Module, props: Set[str]) -> ast.AST:
     """Inside a method, `x = self.a` (x bound once, `a` a plain data attribute - not a property anywhere in the
     package) followed by reads of x is the same as reading `self.a` each time, provided nothing between the binding
     and the last read can rebind `self.a`: no attribute store on that chain, no call of a method of the class whose
-    (transitive, name-resolved) stores include `a`, no call that is handed `self`.  Symmetrically `self.a = x` (x a
-    once-bound local) followed by reads of x reads `self.a`.  Both spellings then look the same to every rule."""
+    (transitive, name-resolved) stores include `a`, no call that is handed `self`."""
     for cls in [n for n in ast.walk(tree) if isinstance(n, ast.ClassDef)]:
         methods = {m.name: m for m in cls.body if isinstance(m, (ast.FunctionDef, ast.AsyncFunctionDef))}
         stores: Dict[str, Set[str]] = {}
@@ -636,27 +635,6 @@ def _alias_in_method(m: ast.AST, props: Set[str], may_store, has_setattr: bool):
                                 y.lineno, y.col_offset = u.lineno, u.col_offset
                         _swap_child(par, u, new)
                     _drop_stmt(m, st)
-                    done = True
-                    break
-            # form 2: self.a = x
-            if isinstance(tgt, ast.Attribute) and isinstance(val, ast.Name) and not has_setattr:
-                ch = _self_chain(tgt)
-                x = val.id
-                if ch and len(ch) == 1 and ch[0] not in props and x not in params and n_store.get(x) == 1:
-                    uses = [u for u in nodes if isinstance(u, ast.Name) and u.id == x and isinstance(u.ctx, ast.Load)
-                            and u is not val and _npos(u) > _npos(st)]
-                    if not uses or any(id(u) in nested for u in uses):
-                        continue
-                    if loops_of(st) != [] or any(loops_of(u) for u in uses):
-                        continue
-                    hi = max(_npos(u) for u in uses)
-                    if hazards(_npos(val), hi, ch[0], st):
-                        continue
-                    for u in uses:
-                        par = pm[id(u)]
-                        new = ast.copy_location(ast.Attribute(ast.Name("self", ast.Load()), ch[0], ast.Load()), u)
-                        new.value.lineno, new.value.col_offset = u.lineno, u.col_offset
-                        _swap_child(par, u, new)
                     done = True
                     break
         if not done:
